@@ -10,6 +10,10 @@
 //!              back as the same variant with equal fields and (except for streamed PSBTs)
 //!              equal bytes after re-encoding.
 //!   malformed  byte strings that are not encodings (truncated, extended, flipped, retyped)
+//!   framed     the length-framed stream paths: msgs::write must produce write_vec(as_vec()) for
+//!              every registry type; several messages written back to back are read back one
+//!              by one with msgs::read, read_message::<T> and from_reader, equal, nothing left;
+//!              plus frames with a wrong length prefix / truncated streams through msgs::read
 //!   psbt       StreamedPSBT: consistent and inconsistent PSBTs (incl. bare witness_utxo claims about
 //!              admissible and legacy outputs) through SignWithdrawal; the view
 //!              the model reads, what the decoder produced, and the reference computed here.
@@ -125,6 +129,21 @@ pub trait AnyMsg {
     fn bytes(&self) -> Vec<u8>;
     fn coq_msg(&self) -> String;
     fn canon_msg(&self, received: bool) -> String;
+    /// msgs::write (the typed, length-framed writer) into a fresh buffer; consumes the value
+    fn write_framed(self: Box<Self>) -> Result<Vec<u8>, String>;
+    /// msgs::read_message::<Self> from the start of `stream`: canonical structure, bytes consumed
+    fn read_typed(&self, stream: &[u8]) -> Result<(String, usize), String>;
+}
+
+pub fn write_framed_as<T: DeBolt>(v: T) -> Result<Vec<u8>, String> {
+    let mut b: Vec<u8> = Vec::new();
+    msgs::write(&mut b, v).map_err(|e| err_kind(&e).to_string())?;
+    Ok(b)
+}
+pub fn read_typed_as<T: DeBolt + ToCoq>(stream: &[u8]) -> Result<(String, usize), String> {
+    let mut c = vls_protocol::serde_bolt::io::Cursor::new(stream.to_vec());
+    let v: T = msgs::read_message(&mut c).map_err(|e| err_kind(&e).to_string())?;
+    Ok((v.canon(true), c.position() as usize))
 }
 pub struct TypeInfo {
     pub name: &'static str,
@@ -1068,6 +1087,231 @@ fn malformed_domain(args: &Args) {
                          "outcomes": {"ok": outs[0], "err": outs[1], "unknown": outs[2]}, "errors": errs}));
 }
 
+// ------------------------------------------------------------------ framed streams
+
+fn framed_domain(args: &Args) {
+    use vls_protocol::serde_bolt::io::Cursor;
+    let mut rng = Rng::new(args.seed ^ 0x6672616d);
+    let ntypes = TYPES.len();
+    let mut n_msgs = 0u64;
+    let mut monitor = 0u64;
+    let mut write_differs = 0u64;
+    let mut types_seen: std::collections::BTreeSet<&'static str> = Default::default();
+    let mut max_stream = 0usize;
+    for j in 0..args.n {
+        // every registry type comes first or second in some sequence (2 per sequence, in order)
+        let mut tix = vec![(2 * j) % ntypes, (2 * j + 1) % ntypes];
+        for _ in 0..rng.below(3) {
+            tix.push(rng.below(ntypes as u64) as usize);
+        }
+        let mut sent: Vec<(&TypeInfo, Box<dyn AnyMsg>)> = vec![];
+        let mut stream: Vec<u8> = vec![];
+        let mut violation = String::new();
+        for (k, t) in tix.iter().enumerate() {
+            let ti = &TYPES[*t];
+            let seed = args.seed.wrapping_mul(7121).wrapping_add((j * 16 + k) as u64);
+            let (profile, target) = match (j + k) % 9 {
+                0 => (Profile::Min, None),
+                1 => (Profile::Max, None),
+                2 if k == 0 => (Profile::Max, Some((0usize, 1500usize))), // a long message inside a stream
+                _ => (Profile::Rand, None),
+            };
+            let (m, _) = gen_value(ti, seed, profile, target);
+            let (m2, _) = gen_value(ti, seed, profile, target); // the same value again: write consumes it
+            let payload = m.bytes();
+            let mut expected: Vec<u8> = vec![];
+            msgs::write_vec(&mut expected, payload.clone()).expect("write_vec");
+            match catch_unwind(AssertUnwindSafe(|| m2.write_framed())) {
+                Ok(Ok(actual)) => {
+                    if actual != expected {
+                        write_differs += 1;
+                        if violation.is_empty() {
+                            violation = format!(
+                                "msgs::write({}) differs from write_vec(as_vec()): length prefix {} vs {} (payload {} bytes)",
+                                ti.name,
+                                u32::from_be_bytes([actual[0], actual[1], actual[2], actual[3]]),
+                                expected.len() - 4,
+                                actual.len() - 4
+                            );
+                        }
+                    }
+                    stream.extend(actual);
+                }
+                Ok(Err(e)) => {
+                    violation = format!("msgs::write({}) failed: {}", ti.name, e);
+                    stream.extend(expected);
+                }
+                Err(_) => {
+                    violation = format!("msgs::write({}) panicked", ti.name);
+                    stream.extend(expected);
+                }
+            }
+            types_seen.insert(ti.name);
+            sent.push((ti, m));
+            n_msgs += 1;
+        }
+        max_stream = max_stream.max(stream.len());
+        // 1. msgs::read, one message after the other
+        let mut out = 0u32;
+        let mut detail = String::from("ok");
+        let r = catch_unwind(AssertUnwindSafe(|| {
+            let mut c = Cursor::new(stream.clone());
+            for (ti, m) in sent.iter() {
+                match msgs::read(&mut c) {
+                    Err(e) => return Err(format!("msgs::read of {}: {}", ti.name, err_kind(&e))),
+                    Ok(msg) => {
+                        let (variant, canon, re) = describe(&msg);
+                        if variant != ti.name {
+                            return Err(format!("msgs::read of {} returned {}", ti.name, variant));
+                        }
+                        if canon != m.canon_msg(false) || (!ti.has_streamed && re != m.bytes()) {
+                            return Err(format!("msgs::read of {}: different field values", ti.name));
+                        }
+                    }
+                }
+            }
+            if c.position() as usize != stream.len() {
+                return Err(format!("{} bytes left on the stream", stream.len() - c.position() as usize));
+            }
+            Ok(())
+        }));
+        match r {
+            Ok(Ok(())) => {}
+            Ok(Err(e)) => {
+                out = 1;
+                detail = e;
+            }
+            Err(_) => {
+                out = 1;
+                detail = "msgs::read panicked".into();
+            }
+        }
+        // 2. read_message::<T>, one after the other
+        if out == 0 {
+            let mut off = 0usize;
+            for (ti, m) in sent.iter() {
+                match catch_unwind(AssertUnwindSafe(|| m.read_typed(&stream[off..]))) {
+                    Ok(Ok((canon, used))) => {
+                        if canon != m.canon_msg(false) {
+                            out = 1;
+                            detail = format!("read_message::<{}>: different field values", ti.name);
+                            break;
+                        }
+                        off += used;
+                    }
+                    Ok(Err(e)) => {
+                        out = 1;
+                        detail = format!("read_message::<{}>: {}", ti.name, e);
+                        break;
+                    }
+                    Err(_) => {
+                        out = 1;
+                        detail = format!("read_message::<{}> panicked", ti.name);
+                        break;
+                    }
+                }
+            }
+            if out == 0 && off != stream.len() {
+                out = 1;
+                detail = "read_message: bytes left on the stream".into();
+            }
+        }
+        // 3. the length read by the caller, then from_reader
+        if out == 0 {
+            let mut c = Cursor::new(stream.clone());
+            for (ti, m) in sent.iter() {
+                let mut lb = [0u8; 4];
+                use vls_protocol::serde_bolt::io::Read;
+                if c.read_exact(&mut lb).is_err() {
+                    out = 1;
+                    detail = "from_reader: stream ended".into();
+                    break;
+                }
+                match catch_unwind(AssertUnwindSafe(|| msgs::from_reader(&mut c, u32::from_be_bytes(lb)))) {
+                    Ok(Ok(msg)) => {
+                        let (variant, canon, _) = describe(&msg);
+                        if variant != ti.name || canon != m.canon_msg(false) {
+                            out = 1;
+                            detail = format!("from_reader of {}: different message", ti.name);
+                            break;
+                        }
+                    }
+                    _ => {
+                        out = 1;
+                        detail = format!("from_reader of {} failed", ti.name);
+                        break;
+                    }
+                }
+            }
+        }
+        if out != 0 && violation.is_empty() {
+            violation = detail.clone();
+        }
+        if !violation.is_empty() {
+            monitor += 1;
+        }
+        let terms: Vec<String> = sent.iter().map(|(_, m)| m.coq_msg()).collect();
+        let coq = format!("({}%list, {}, {}%N)", coq_list(&terms), coq_bytes(&stream), out);
+        emit("STREAM", json!({"seq": j, "types": sent.iter().map(|(t, _)| t.name).collect::<Vec<_>>(), "len": stream.len(),
+                              "out": out, "detail": detail, "monitor_violation": violation, "coq": coq,
+                              "values": if violation.is_empty() { vec![] } else { terms.clone() },
+                              "stream_hex": if violation.is_empty() || stream.len() > 4000 { String::new() } else { hex::encode(&stream) }}));
+    }
+    // frames that are not frames, through msgs::read (blob-free types)
+    let clean: Vec<&TypeInfo> = TYPES.iter().filter(|t| !t.has_blob && t.dispatched).collect();
+    let mut kinds: std::collections::BTreeMap<&'static str, u64> = Default::default();
+    let mut n_mal = 0u64;
+    let mut run = |bytes: Vec<u8>, what: &'static str| {
+        let r = catch_unwind(AssertUnwindSafe(|| {
+            let mut c = Cursor::new(bytes.clone());
+            msgs::read(&mut c).map(|m| (m, c.position() as usize))
+        }));
+        let (kind, idx, re, left, detail) = match r {
+            Err(_) => (1u32, 0u64, vec![], 0usize, "panic".to_string()),
+            Ok(Err(e)) => (1, 0, vec![], 0, err_kind(&e).to_string()),
+            Ok(Ok((m, pos))) => {
+                let (variant, canon, re) = describe(&m);
+                if variant == "Unknown" {
+                    (4, canon.parse::<u64>().unwrap(), vec![], bytes.len() - pos, "Unknown".to_string())
+                } else {
+                    (0, TYPES.iter().position(|t| t.name == variant).unwrap() as u64, re, bytes.len() - pos, variant)
+                }
+            }
+        };
+        *kinds.entry(what).or_insert(0) += 1;
+        n_mal += 1;
+        let coq = format!("({}, {}%N, {}%N, {}, {}%N)", coq_bytes(&bytes), kind, idx, coq_bytes(&re), left);
+        emit("FMAL", json!({"what": what, "len": bytes.len(), "kind": kind, "idx": idx, "left": left, "detail": detail,
+                            "bytes": hex::encode(&bytes[..bytes.len().min(120)]), "coq": coq}));
+    };
+    for k in 0..args.n {
+        let ti = clean[rng.below(clean.len() as u64) as usize];
+        let mut g = Gen::new(args.seed.wrapping_add(k as u64 * 131), Profile::Rand, None);
+        let payload = (ti.gen)(&mut g).bytes();
+        let tail: Vec<u8> = (0..rng.below(7)).map(|_| rng.below(256) as u8).collect();
+        let framed = |len: u32, body: &[u8], tail: &[u8]| {
+            let mut b = len.to_be_bytes().to_vec();
+            b.extend_from_slice(body);
+            b.extend_from_slice(tail);
+            b
+        };
+        let n = payload.len() as u32;
+        run(framed(n, &payload, &tail), "frame+tail");
+        run(framed(n + 1, &payload, &tail), "length+1");
+        run(framed(n.saturating_sub(1), &payload, &tail), "length-1");
+        run(framed(n, &payload[..payload.len() - 1], &[]), "stream-ends-early");
+        run(framed(*rng.pick(&[0u32, 1]), &payload, &tail), "length<2");
+        run(framed(*rng.pick(&[131073u32, 1 << 24, u32::MAX]), &payload, &tail), "length>max");
+        run(framed(2, &payload[..2], &tail), "type-only-frame");
+        let cut = rng.below(4) as usize;
+        run(n.to_be_bytes()[..cut].to_vec(), "short-length-prefix");
+    }
+    drop(run);
+    emit("STATS", json!({"domain": "wire-framed", "sequences": args.n, "messages": n_msgs, "types": types_seen.len(),
+                         "registry_types": ntypes, "write_differs_from_write_vec": write_differs, "monitor_violations": monitor,
+                         "max_stream_len": max_stream, "malformed_frames": n_mal, "malformed_kinds": kinds}));
+}
+
 // ------------------------------------------------------------------ streamed PSBT
 
 fn psbt_domain(args: &Args) {
@@ -1167,6 +1411,7 @@ fn main() {
         "msgs" => msgs_domain(&args),
         "malformed" => malformed_domain(&args),
         "psbt" => psbt_domain(&args),
+        "framed" => framed_domain(&args),
         other => {
             eprintln!("unknown sub-domain {}", other);
             std::process::exit(2);
